@@ -339,7 +339,7 @@ type caseState struct {
 	probes []string // names probed after every operation (norm off: every spelling)
 	pbuf   []string
 	kb     []byte
-	origin string // key prefix of the current round ("", "parsed/", "reused/", "reused-parsed/")
+	prefix string // "cookie-mid-collected/" once the object has held a parsed request with Cookie between other fields
 }
 
 // probeNames: which spelled names are looked up after each step.
@@ -726,7 +726,7 @@ func (c *caseState) roundTrip(h hdr, m *model) {
 	var buf bytes.Buffer
 	bw := bufio.NewWriterSize(&buf, 1024)
 	if err := h.Write(bw); err != nil {
-		c.r.Violation(c.i, c.origin+"roundtrip-write-error", c.what("Write: "+err.Error(), nil), c.payload(nil))
+		c.r.Violation(c.i, c.prefix+"roundtrip-write-error", c.what("Write: "+err.Error(), nil), c.payload(nil))
 		return
 	}
 	bw.Flush()
@@ -735,7 +735,7 @@ func (c *caseState) roundTrip(h hdr, m *model) {
 	// 1. wire monitor.
 	wf, bad := parseWire(wire)
 	if bad != "" {
-		c.r.Violation(c.i, c.origin+"roundtrip-wire-malformed", c.what("Write produced a malformed block ("+bad+")", nil), c.payload(map[string]any{"wire": string(wire)}))
+		c.r.Violation(c.i, c.prefix+"roundtrip-wire-malformed", c.what("Write produced a malformed block ("+bad+")", nil), c.payload(map[string]any{"wire": string(wire)}))
 		return
 	}
 	var wireOrd []field
@@ -752,7 +752,7 @@ func (c *caseState) roundTrip(h hdr, m *model) {
 	}
 	if !eqFields(wireOrd, want.fields) {
 		key := "roundtrip-wire-ordinary-fields"
-		c.r.Violation(c.i, c.origin+key, c.what("Write", []mismatch{{"wire-ordinary-fields", "", wireOrd, want.fields}}), c.payload(map[string]any{"wire": string(wire)}))
+		c.r.Violation(c.i, c.prefix+key, c.what("Write", []mismatch{{"wire-ordinary-fields", "", wireOrd, want.fields}}), c.payload(map[string]any{"wire": string(wire)}))
 		return
 	}
 	for _, n := range specialNames {
@@ -786,7 +786,7 @@ func (c *caseState) roundTrip(h hdr, m *model) {
 			got = nonEmpty(got)
 		}
 		if !eqStrs(got, exp) {
-			c.r.Violation(c.i, c.origin+"roundtrip-wire-"+strings.ToLower(n), c.what("Write", []mismatch{{"wire-field", n, got, exp}}), c.payload(map[string]any{"wire": string(wire)}))
+			c.r.Violation(c.i, c.prefix+"roundtrip-wire-"+strings.ToLower(n), c.what("Write", []mismatch{{"wire-field", n, got, exp}}), c.payload(map[string]any{"wire": string(wire)}))
 			return
 		}
 	}
@@ -803,7 +803,7 @@ func (c *caseState) roundTrip(h hdr, m *model) {
 	}
 	h2.SetNoDefaultContentType(m.noDefCT)
 	if err := h2.Read(bufio.NewReaderSize(bytes.NewReader(wire), len(wire)+64)); err != nil {
-		c.r.Violation(c.i, c.origin+"roundtrip-read-error", c.what("Read of the written header: "+err.Error(), nil), c.payload(map[string]any{"wire": string(wire)}))
+		c.r.Violation(c.i, c.prefix+"roundtrip-read-error", c.what("Read of the written header: "+err.Error(), nil), c.payload(map[string]any{"wire": string(wire)}))
 		return
 	}
 	skip := map[string]bool{"Content-Length": true, "Connection": true}
@@ -817,7 +817,7 @@ func (c *caseState) roundTrip(h hdr, m *model) {
 		if x.Name != "" {
 			kc = keyClass(m.req, want.key(x.Name))
 		}
-		c.r.Violation(c.i, c.origin+fmt.Sprintf("roundtrip-readback-%s-%s", x.Obs, kc), c.what("Write+Read", mm), c.payload(map[string]any{"wire": string(wire), "mismatches": mm}))
+		c.r.Violation(c.i, c.prefix+fmt.Sprintf("roundtrip-readback-%s-%s", x.Obs, kc), c.what("Write+Read", mm), c.payload(map[string]any{"wire": string(wire), "mismatches": mm}))
 		return
 	}
 	c.ev["roundtrips_checked"]++
@@ -886,7 +886,7 @@ var opStatusCodes = []string{"204", "304", "100", "200", "404"}
 // order (Cookie anywhere), names in any letter case, optional whitespace
 // around values. It returns the bytes and the field lines as written (values
 // without the surrounding whitespace) - the independent parse of those bytes.
-func (c *caseState) genWire() (wire string, lines []field, status int, cookieLines int, cookieLast bool) {
+func (c *caseState) genWire() (wire string, lines []field, status int, cookieLines int, cookieMid bool) {
 	used := map[string]bool{}
 	n := 1 + c.rnd.Intn(8)
 	for k := 0; k < n; k++ {
@@ -935,6 +935,10 @@ func (c *caseState) genWire() (wire string, lines []field, status int, cookieLin
 			c.ctr++
 			insert(field{"Host", fmt.Sprintf("h%d.example", c.ctr)})
 		}
+		if !used["Cookie"] && c.rnd.Intn(100) < 35 {
+			// browsers send Cookie in the middle of the header
+			insert(field{"Cookie", cookieValues[c.rnd.Intn(len(cookieValues))]})
+		}
 		b.WriteString([]string{"GET / HTTP/1.1", "POST /p?q=1 HTTP/1.1", "GET /x HTTP/1.1"}[c.rnd.Intn(3)])
 	} else {
 		if !used["Content-Length"] {
@@ -946,18 +950,18 @@ func (c *caseState) genWire() (wire string, lines []field, status int, cookieLin
 		b.WriteString(st.line)
 	}
 	b.WriteString("\r\n")
-	lastOrd := -1
-	for i, f := range lines {
+	for _, f := range lines {
 		k := f.K
 		if c.norm {
 			k = canon(k)
 		}
 		if kindOf(c.req, k) == kCookie && c.req {
+			if cookieLines > 0 {
+				cookieMid = true // also an earlier Cookie line followed by this one
+			}
 			cookieLines++
-			cookieLast = true
-		} else if kindOf(c.req, k) == kOrdinary || k == "Connection" {
-			cookieLast = false
-			lastOrd = i
+		} else if (kindOf(c.req, k) == kOrdinary || k == "Connection") && cookieLines > 0 {
+			cookieMid = true // a field of the ordinary list follows a Cookie line
 		}
 		b.WriteString(f.K)
 		b.WriteString(":")
@@ -968,9 +972,8 @@ func (c *caseState) genWire() (wire string, lines []field, status int, cookieLin
 		}
 		b.WriteString("\r\n")
 	}
-	_ = lastOrd
 	b.WriteString("\r\n")
-	return b.String(), lines, status, cookieLines, cookieLast
+	return b.String(), lines, status, cookieLines, cookieMid
 }
 
 var collectKinds = []string{"Cookie(a)", "Len()", "Cookies()", "DelCookie(absent)", "SetCookie(zz,9)", "PeekKeys()", "All()-first"}
@@ -1027,12 +1030,14 @@ func runCase(r *mon.Run, i int, ev map[string]int) {
 	feat := map[string]bool{}
 	hitMulti, specialsTouched, reordered := false, 0, false
 	aborted := false
-	origin := "" // where the header of this round comes from: "", "parsed/", "reused/", "reused-parsed/"
+	origin := "" // where the header of this round comes from (payload only): "", "parsed", "reused", "reused-parsed"
 	rt := "none"
-	parsedCookieMid := false
+	parsedCookieMid := false // this round started from wire bytes whose Cookie line was not the last ordinary field
 
 	fail := func(key, stage string, mm []mismatch) {
-		r.Violation(i, origin+key, c.what(stage, mm), c.payload(map[string]any{"mismatches": mm, "origin": origin}))
+		// narrow predicate of one class: the object once held a parsed request
+		// whose Cookie field had to be moved out from between other fields
+		r.Violation(i, c.prefix+key, c.what(stage, mm), c.payload(map[string]any{"mismatches": mm, "origin": origin}))
 		aborted = true
 	}
 	nameRel := func(x mismatch, ck string) string {
@@ -1102,7 +1107,7 @@ func runCase(r *mon.Run, i int, ev map[string]int) {
 		if removal != "" {
 			obs := observedOrdinary(h, c.req)
 			if sym := reorderOnly(mm, m, obs, ck); sym != "" {
-				r.Violation(i, origin+removal+"-reorders-"+sym, c.what(o.String(), mm), c.payload(map[string]any{"mismatches": mm}))
+				r.Violation(i, removal+"-reorders-"+sym, c.what(o.String(), mm), c.payload(map[string]any{"mismatches": mm}))
 				m.fields = obs // adopt the observed order so that the rest of the sequence is still judged
 				reordered = true
 				c.ev["model_resynchronised_after_reorder"]++
@@ -1113,7 +1118,7 @@ func runCase(r *mon.Run, i int, ev map[string]int) {
 		key := fmt.Sprintf("%s-%s/%s-%s", o.Kind, keyClass(c.req, ck), x.Obs, nameRel(x, ck))
 		if !c.req && ck == "Content-Length" && o.Kind != "del" {
 			switch {
-			case m.status != 0 && m.status != 200:
+			case m.status == 204 || m.status == 304 || m.status >= 100 && m.status < 200:
 				key += fmt.Sprintf("/status=%d", m.status)
 			case len(o.Val) > 1 && o.Val[0] == '0':
 				key += "/leading-zero"
@@ -1133,7 +1138,7 @@ func runCase(r *mon.Run, i int, ev map[string]int) {
 		parsedCookieMid = false
 		if round > 0 {
 			// the same object serves the next sequence, as a pooled header does
-			origin = "reused/"
+			origin = "reused"
 			c.log = append(c.log, op{Kind: "reuse"})
 			h.Reset()
 			if !c.norm {
@@ -1146,12 +1151,11 @@ func runCase(r *mon.Run, i int, ev map[string]int) {
 
 		if c.rnd.Intn(100) < 45 {
 			// start from a header parsed from wire bytes
-			wire, lines, status, cookieLines, cookieLast := c.genWire()
-			origin = strings.TrimSuffix(origin, "/")
+			wire, lines, status, cookieLines, cookieMid := c.genWire()
 			if origin != "" {
 				origin += "-"
 			}
-			origin += "parsed/"
+			origin += "parsed"
 			c.log = append(c.log, op{Kind: "read", Val: wire})
 			feat["read"] = true
 			if err := h.Read(bufio.NewReaderSize(strings.NewReader(wire), len(wire)+64)); err != nil {
@@ -1163,14 +1167,18 @@ func runCase(r *mon.Run, i int, ev map[string]int) {
 			}
 			m.status = status
 			c.ev["started_from_parsed_header"]++
-			if c.req && cookieLines > 0 && !cookieLast {
+			if c.req && cookieMid {
 				parsedCookieMid = true
+				c.prefix = "cookie-mid-collected/"
 				c.ev["parsed_header_with_cookie_before_other_fields"]++
 			}
 			if c.req && (cookieLines > 1 || c.rnd.Intn(2) == 0) {
 				// an explicit cookie-collecting call before anything else looks at the header
 				// (with two Cookie lines Peek("Cookie") is only defined after collection)
 				o := op{Kind: "collect", Sub: collectKinds[c.rnd.Intn(len(collectKinds))]}
+				if cookieLines > 1 && o.Sub == "All()-first" {
+					o.Sub = "Len()" // an iteration that stops at the first field does not reach the cookies
+				}
 				c.log = append(c.log, o)
 				collect(h, m, o.Sub)
 				c.ev["collect_calls"]++
@@ -1287,7 +1295,6 @@ func runCase(r *mon.Run, i int, ev map[string]int) {
 		}
 		if !aborted {
 			before := c.ev["roundtrips_checked"]
-			c.origin = origin
 			c.roundTrip(h, m)
 			if c.ev["roundtrips_checked"] > before {
 				rt = "done"
